@@ -2,9 +2,11 @@
  *
  * Spaces (see DESIGN.md "### C16"):
  *   a   coap_split_uri / coap_split_proxy_uri on prefix x tail, tail in Sigma_u^{<=5|6}
- *   a2  explicit port numbers (0..70000, leading zeros, wrap-around values)
+ *   a2  explicit port numbers (0..70000, leading zeros, wrap-around values) and all eight schemes x default /
+ *       neighbouring ports
  *   b   coap_split_path / coap_path_into_optlist / coap_split_query / coap_query_into_optlist /
  *       coap_uri_into_optlist on Sigma_p^{<=5|6|7}, every output buffer size 0..needed+1
+ *   b2  the same on Sigma_d^{<=6|7|8}, Sigma_d = {% 2 5 e E / . a}: strings that can be decoded twice
  *   c   segment lists -> PDU -> coap_get_uri_path / coap_get_query -> string -> (b) functions -> list,
  *       and injectivity of list -> string over the whole enumerated set (second exact pass, c-inj)
  *
@@ -492,7 +494,7 @@ enum {
   K_A_VALID = 0, K_A_REJECT, K_A_Q_ACC, K_A_Q_REJ,
   K_Q_FRAGMENT, K_Q_USERINFO, K_Q_IPLIT_DELIM, K_Q_IPLIT_BAD, K_Q_HOST, K_Q_PATH, K_Q_QUERY,
   K_B_PATH_OK, K_B_PATH_BADPCT, K_B_QUERY_OK, K_B_QUERY_BADPCT, K_B_SPLIT_CALLS, K_B_URI_FRAGMENT, K_B_URI_OK,
-  K_C_LISTS, K_C_DOT_LISTS, K_C_COLL_PATH, K_C_COLL_QUERY, K_C_HASH_FALSE, K_C_CANDIDATES,
+  K_B_AMBIG, K_C_LISTS, K_C_DOT_LISTS, K_C_COLL_PATH, K_C_COLL_QUERY, K_C_HASH_FALSE, K_C_CANDIDATES,
   K_OVERREAD = 31
 };
 
@@ -780,6 +782,7 @@ static const char *const PORT_SPECIAL[] = {"65535", "65536", "99999", "100000", 
                                            "000000000000000000000080", "5683x", "56 83", "+80", "-1", "0x50"};
 #define PORT_N 70001u
 #define PORT_SPECIALS (sizeof PORT_SPECIAL / sizeof PORT_SPECIAL[0])
+#define SCHEME_GRID (REF_SCHEME_N * 2u * 9u * 3u)
 static void
 case_a2(uint64_t idx, void *arg) {
   (void)arg;
@@ -789,8 +792,25 @@ case_a2(uint64_t idx, void *arg) {
   if (idx < 3ull * PORT_N)
     n = snprintf(in, sizeof in, "%s%s%u%s", sch[idx % 3], idx % 3 == 1 ? "0" : idx % 3 == 2 ? "00" : "",
                  (unsigned)(idx / 3), idx % 3 == 2 ? "/a" : "");
-  else
+  else if (idx < 3ull * PORT_N + PORT_SPECIALS)
     n = snprintf(in, sizeof in, "coap://a:%s", PORT_SPECIAL[idx - 3ull * PORT_N]);
+  else {
+    /* every documented scheme x host form x {no port, empty port, default-1, default, default+1, 5683, 5684, 80,
+     * 443} x tail: default ports recognised (split) and elided (Uri-Port) for all eight schemes */
+    uint64_t g = idx - 3ull * PORT_N - PORT_SPECIALS;
+    static const char *const hosts[2] = {"a.a", "[::1]"};
+    static const char *const tails[3] = {"", "/", "/a?b"};
+    static const int fixed[4] = {5683, 5684, 80, 443};
+    int sc = (int)(g % REF_SCHEME_N), ho = (int)(g / REF_SCHEME_N % 2), pf = (int)(g / REF_SCHEME_N / 2 % 9),
+        ta = (int)(g / REF_SCHEME_N / 2 / 9);
+    char port[16] = "";
+    int dp = ref_schemes[sc].default_port;
+    if (pf == 1)
+      snprintf(port, sizeof port, ":");
+    else if (pf >= 2)
+      snprintf(port, sizeof port, ":%d", pf <= 4 ? dp + pf - 3 : fixed[pf - 5]);
+    n = snprintf(in, sizeof in, "%s://%s%s%s", ref_schemes[sc].name, hosts[ho], port, tails[ta]);
+  }
   case_begin(0);
   check_uri_input((const uint8_t *)in, (size_t)n, idx, "a2");
   case_end();
@@ -799,6 +819,54 @@ case_a2(uint64_t idx, void *arg) {
 /* ------------------------------------------------------------------------------------------ */
 /* space b: path / query strings -> options                                                    */
 static const uint8_t SIG_P[16] = {'a', 'A', '/', '.', '%', '2', 'e', 'E', 'F', '&', '?', '#', '=', '~', 0x00, 0xC3};
+
+/* Three readings of a malformed input, to say in the signature what the function did with the segment that
+ * has the bad escape: mode 0 = silently dropped, 1 = kept in some decoded / literal form (only the number of
+ * segments is predicted), 2 = taken for a ".." (libcoap's dots() does that with "%%2e"). */
+static int g_malformed_segments;
+static int
+malformed_reading(int mode, int query, const uint8_t *s, size_t len, struct ref_seglist *out) {
+  size_t cut = 0;
+  g_malformed_segments = 0;
+  uint8_t sep = query ? '&' : '/';
+  int n = 0;
+  while (cut < len && s[cut] != '#' && (query || s[cut] != '?'))
+    cut++;
+  for (size_t i = 0; i <= cut;) {
+    size_t j = i;
+    while (j < cut && s[j] != sep)
+      j++;
+    int d = query ? 0 : ref_segment_dots(s + i, j - i);
+    int m = d == 0 ? ref_pct_decode(s + i, j - i, out->seg[n < REF_MAXSEG ? n : 0], REF_MAXSEGLEN) : 0;
+    int bad = d == REF_E_PCT || m < 0;
+    g_malformed_segments += bad;
+    if (d == 2 || (bad && mode == 2 && !query)) {
+      if (n > 0)
+        n--;
+    } else if (d == 1 || (bad && mode != 1)) {
+      /* nothing */
+    } else if (n < REF_MAXSEG) {
+      out->len[n++] = bad ? 0 : (size_t)m;
+    }
+    i = j + 1;
+  }
+  out->n = n;
+  return n;
+}
+/* "dropped" / "kept" / "taken-as-dot-dot" / "other"; NULL when the input cannot tell: more than one reading
+ * fits (e.g. the malformed segment is popped again by a later "..") or it has several malformed segments */
+static const char *
+bad_percent_class(int query, const uint8_t *s, size_t len, const struct ref_seglist *G) {
+  struct ref_seglist D, K, T;
+  int gn = (G->n == 1 && G->len[0] == 0) ? 0 : G->n;
+  malformed_reading(0, query, s, len, &D);
+  int kn = malformed_reading(1, query, s, len, &K);
+  malformed_reading(2, query, s, len, &T);
+  int md = ref_seglist_equal_mod_empty(&D, G), mk = gn == kn, mt = !query && ref_seglist_equal_mod_empty(&T, G);
+  if (md + mk + mt > 1 || g_malformed_segments > 1)
+    return NULL; /* several malformed segments may each be treated differently; each also occurs alone */
+  return md ? "dropped" : mk ? "kept" : mt ? "taken-as-dot-dot" : "other";
+}
 
 /* coap_split_path / coap_split_query for every output buffer size need+1 .. 0.
  * ref_rc != 0: the reference rejects the input (malformed escape).  need: bytes a left-to-right
@@ -825,9 +893,17 @@ check_split_fn(const char *fn, int query, const uint8_t *s, size_t len, int ref_
     }
     if (ref_rc != 0) {
       if (c->ret >= 0) {
-        snprintf(sig, sizeof sig, "uri-mismatch:%s:bad-percent-accepted", fn);
-        failx(sig, "%s(%s, buflen=%zu) returns %d (success) although a '%%' is not followed by two hex digits", fn,
-              show(s, len), size, c->ret);
+        struct ref_seglist G;
+        if (parse_split_output(c->out, c->outlen, c->ret, &G) != 0)
+          G.n = 0;
+        const char *bc = bad_percent_class(query, s, len, &G);
+        if (!bc) {
+          vxp_count(K_B_AMBIG, 1);
+          return;
+        }
+        snprintf(sig, sizeof sig, "uri-mismatch:%s:bad-percent-accepted:%s", fn, bc);
+        failx(sig, "%s(%s, buflen=%zu) returns %d = %s (success) although a '%%' is not followed by two hex digits", fn,
+              show(s, len), size, c->ret, show_list(&G));
         return;
       }
       continue;
@@ -876,11 +952,27 @@ check_optlist_fn(const char *fn, int query, int prechain, const uint8_t *s, size
   c->prechain = prechain;
   if (!run_call(fn, call_optlist, c, s, len))
     return;
+  int from = 0;
+  if (prechain && c->ret == 1 && !c->res.overflow) {
+    if (c->res.n < 2 || c->res.o[0].num != COAP_OPTION_URI_HOST || c->res.o[0].len != 1 || c->res.o[0].val[0] != 'h' ||
+        c->res.o[1].num != COAP_OPTION_URI_PORT || c->res.o[1].len != 1 || c->res.o[1].val[0] != 9) {
+      snprintf(sig, sizeof sig, "uri-mismatch:%s:previous-options-changed", fn);
+      failx(sig, "%s(%s) on a chain that already holds [Uri-Host \"h\", Uri-Port 9]: the earlier options are gone/changed "
+            "(%d options left, first number %d)", fn, show(s, len), c->res.n, c->res.n ? c->res.o[0].num : -1);
+      return;
+    }
+    from = 2;
+  }
   if (ref_rc != 0) {
     if (c->ret != 0) {
-      snprintf(sig, sizeof sig, "uri-mismatch:%s:bad-percent-accepted", fn);
       struct ref_seglist G;
       optres_to_list(&c->res, prechain ? 2 : 0, query ? COAP_OPTION_URI_QUERY : COAP_OPTION_URI_PATH, &G);
+      const char *bc = bad_percent_class(query, s, len, &G);
+      if (!bc) {
+        vxp_count(K_B_AMBIG, 1);
+        return;
+      }
+      snprintf(sig, sizeof sig, "uri-mismatch:%s:bad-percent-accepted:%s", fn, bc);
       failx(sig, "%s(%s) returns %d (success) with %s although a '%%' is not followed by two hex digits", fn, show(s, len),
             c->ret, show_list(&G));
     }
@@ -890,17 +982,6 @@ check_optlist_fn(const char *fn, int query, int prechain, const uint8_t *s, size
     snprintf(sig, sizeof sig, "uri-mismatch:%s:reject-valid", fn);
     failx(sig, "%s(%s) returns %d, expected %s", fn, show(s, len), c->ret, show_list(R));
     return;
-  }
-  int from = 0;
-  if (prechain) {
-    if (c->res.n < 2 || c->res.o[0].num != COAP_OPTION_URI_HOST || c->res.o[0].len != 1 || c->res.o[0].val[0] != 'h' ||
-        c->res.o[1].num != COAP_OPTION_URI_PORT || c->res.o[1].len != 1 || c->res.o[1].val[0] != 9) {
-      snprintf(sig, sizeof sig, "uri-mismatch:%s:previous-options-changed", fn);
-      failx(sig, "%s(%s) on a chain that already holds [Uri-Host \"h\", Uri-Port 9]: the earlier options are gone/changed "
-            "(%d options left, first number %d)", fn, show(s, len), c->res.n, c->res.n ? c->res.o[0].num : -1);
-      return;
-    }
-    from = 2;
   }
   struct ref_seglist G;
   if (optres_to_list(&c->res, from, query ? COAP_OPTION_URI_QUERY : COAP_OPTION_URI_PATH, &G) != 0) {
@@ -1041,16 +1122,21 @@ check_uri_optlist(const uint8_t *s, size_t len, const struct pathref *prp) {
   }
 }
 
+/* b2: the escapes of Sigma_p cannot spell "%25", so nothing there can be decoded twice; a second, smaller
+ * alphabet that can ("%252e", "%25%32e", ...) */
+static const uint8_t SIG_D[8] = {'%', '2', '5', 'e', 'E', '/', '.', 'a'};
 struct space_b {
+  const uint8_t *alpha;
+  unsigned A;
   unsigned maxlen;
   uint64_t total;
   char name[64];
 };
 static void
 case_b(uint64_t idx, void *arg) {
-  (void)arg;
+  const struct space_b *sp = arg;
   uint8_t s[16];
-  size_t len = decode_string(idx, SIG_P, 16, s);
+  size_t len = decode_string(idx, sp->alpha, sp->A, s);
   case_begin(len <= 2);
 
   struct pathref pr;
@@ -1518,7 +1604,7 @@ main(int argc, char **argv) {
 
   /* every space this executable may have produced a replay file for */
   struct space_a sa[2];
-  struct space_b sb[3];
+  struct space_b sb[3], sb2[3];
   struct space_c sc[2];
   for (int i = 0; i < 2; i++) {
     sa[i].maxlen = 5 + (unsigned)i;
@@ -1526,23 +1612,30 @@ main(int argc, char **argv) {
     snprintf(sa[i].name, sizeof sa[i].name, "a:split(prefix x Sigma_u^<=%u)", sa[i].maxlen);
   }
   for (int i = 0; i < 3; i++) {
+    sb[i].alpha = SIG_P;
+    sb[i].A = 16;
     sb[i].maxlen = 5 + (unsigned)i;
     sb[i].total = count_strings(16, sb[i].maxlen);
     snprintf(sb[i].name, sizeof sb[i].name, "b:path-query(Sigma_p^<=%u)", sb[i].maxlen);
+    sb2[i].alpha = SIG_D;
+    sb2[i].A = 8;
+    sb2[i].maxlen = 6 + (unsigned)i;
+    sb2[i].total = count_strings(8, sb2[i].maxlen);
+    snprintf(sb2[i].name, sizeof sb2[i].name, "b2:double-decode(Sigma_d^<=%u)", sb2[i].maxlen);
   }
   for (int i = 0; i < 2; i++) {
     space_c_init(&sc[i], i);
     sc[i].H[0] = sc[i].H[1] = NULL;
     sc[i].P[0] = sc[i].P[1] = NULL;
   }
-  const char *name_a2 = "a2:ports";
+  const char *name_a2 = "a2:ports+schemes";
   for (int i = 0; i < 2; i++)
     if (vxp_replay_if_match(sa[i].name, case_a, &sa[i]))
       return 0;
   if (vxp_replay_if_match(name_a2, case_a2, NULL))
     return 0;
   for (int i = 0; i < 3; i++)
-    if (vxp_replay_if_match(sb[i].name, case_b, &sb[i]))
+    if (vxp_replay_if_match(sb[i].name, case_b, &sb[i]) || vxp_replay_if_match(sb2[i].name, case_b, &sb2[i]))
       return 0;
   for (int i = 0; i < 2; i++) {
     if (vxp_replay_if_match(sc[i].name, case_c, &sc[i]))
@@ -1560,19 +1653,23 @@ main(int argc, char **argv) {
   uint64_t evals = 0;
   struct space_a *A = big ? NULL : &sa[thorough ? 1 : 0];
   struct space_b *B = big ? &sb[2] : &sb[thorough ? 1 : 0];
+  struct space_b *B2 = big ? &sb2[2] : &sb2[thorough ? 1 : 0];
   struct space_c *C = big ? &sc[1] : &sc[0];
 
   if (A) {
     struct vxp_config c = {.space = A->name, .total = A->total};
     vxp_enumerate(&c, case_a, A, &st);
     evals += st.done;
-    struct vxp_config c2 = {.space = name_a2, .total = 3ull * PORT_N + PORT_SPECIALS};
+    struct vxp_config c2 = {.space = name_a2, .total = 3ull * PORT_N + PORT_SPECIALS + SCHEME_GRID};
     vxp_enumerate(&c2, case_a2, NULL, &st);
     evals += st.done;
   }
   /* the fast stage runs the cheap list space first so that a deadline can only cut the big string space */
   for (int pass = 0; pass < 2; pass++) {
     if ((pass == 0) == !big) {
+      struct vxp_config c2 = {.space = B2->name, .total = B2->total};
+      vxp_enumerate(&c2, case_b, B2, &st);
+      evals += st.done;
       struct vxp_config c = {.space = B->name, .total = B->total};
       vxp_enumerate(&c, case_b, B, &st);
       evals += st.done;
@@ -1634,6 +1731,7 @@ main(int argc, char **argv) {
   vx_ev_int(EV("b.query.reference_accepts"), (long long)vxp_counter(K_B_QUERY_OK));
   vx_ev_int(EV("b.query.reference_rejects_bad_escape"), (long long)vxp_counter(K_B_QUERY_BADPCT));
   vx_ev_int(EV("b.split_calls_over_buffer_sizes"), (long long)vxp_counter(K_B_SPLIT_CALLS));
+  vx_ev_int(EV("b.bad_escape_accepted_but_segment_popped_by_dotdot"), (long long)vxp_counter(K_B_AMBIG));
   vx_ev_int(EV("b.uri_into_optlist.compared"), (long long)vxp_counter(K_B_URI_OK));
   vx_ev_int(EV("b.uri_into_optlist.skipped_fragment"), (long long)vxp_counter(K_B_URI_FRAGMENT));
   vx_ev_int(EV("c.lists"), (long long)vxp_counter(K_C_LISTS));
